@@ -46,10 +46,13 @@ def is_id_text(v):
 NU_SCOPE_CAT = '$"cat:(.cat | get context_id | uniq | sort | str join ' + "','" + ')"'
 NU_SCOPE_HEAD = '$"head:(.head tick | default {context_id: ' + "'none'" + '} | get context_id)"'
 SCOPE_PROBES = [(NU_SCOPE_CAT, '"{scope:cat}"'), (NU_SCOPE_HEAD, '"{scope:head}"')]
+# every generated script declares a module; `m1 f` calls into it (the `modules` option of handlers and commands)
+NU_MODULES = 'modules: {m1: "export def f [] { \\"mod\\" }"}'
+MODULE_CALL = ("m1 f", '"mod"')
 
 RETS = [  # (nu expression, JSON text the model expects as content; {n} = the call counter)
     ('"pong"', '"pong"'), ("$env.n", "{n}"), ('{a: 1, b: [1 2]}', '{"a":1,"b":[1,2]}'), ("[1 2 3]", "[1,2,3]"),
-    ("true", "true"), ("3.5", "3.5"), ('$"r($env.n)"', '"r{n}"'), (None, None), (None, None)] + SCOPE_PROBES
+    ("true", "true"), ("3.5", "3.5"), ('$"r($env.n)"', '"r{n}"'), (None, None), (None, None)] + SCOPE_PROBES + [MODULE_CALL]
 
 METAS = [  # (nu record, model pairs key -> JSON text)
     (None, None), (None, None), ('{k: "v"}', [["k", '"v"']]), ('{n: 1, s: "x y"}', [["n", "1"], ["s", '"x y"']]),
@@ -123,6 +126,7 @@ def render_handler(spec, ctx_text, id_text):
     if first and not closed:
         out.append("    null")
     out.append("  }")
+    out.append("  " + NU_MODULES)
     res = spec.get("resume", "tail")
     if isinstance(res, dict):
         out.append("  resume_from: %s" % nu_str(id_text(res["after"])))
@@ -140,7 +144,7 @@ def render_handler(spec, ctx_text, id_text):
 
 
 CMD_VALUES = [  # (nu expression of one value, JSON text the model expects as content)
-    ('"a"', '"a"'), ("2", "2"), ('$"v($env.n)"', '"v{n}"'), ("{k: 1}", '{"k":1}'), ("true", "true")] + SCOPE_PROBES
+    ('"a"', '"a"'), ("2", "2"), ('$"v($env.n)"', '"v{n}"'), ("{k: 1}", '{"k":1}'), ("true", "true")] + SCOPE_PROBES + [MODULE_CALL]
 
 
 def render_command(spec, ctx_text):
@@ -169,6 +173,7 @@ def render_command(spec, ctx_text):
     else:
         lines.append("    [%s]" % " ".join(vals))
     lines.append("  }")
+    lines.append("  " + NU_MODULES)
     ro = []
     if spec.get("suffix"):
         ro.append("suffix: %s" % nu_str(spec["suffix"]))
@@ -300,6 +305,7 @@ class Gen:
             {"values_nu": [CMD_VALUES[1]], "appends": [], "fail": "eager"},
             {"values_nu": [CMD_VALUES[2], CMD_VALUES[0]], "appends": [], "suffix": ".r", "ttl": "time:600000"},
             {"values_nu": [CMD_VALUES[5], CMD_VALUES[6]], "appends": []},
+            {"values_nu": [CMD_VALUES[7], CMD_VALUES[0]], "appends": []},
         ]
         sp = json.loads(json.dumps(r.choice(pool)))
         if r.random() < 0.3 and not sp.get("fail") and sp.get("shape") is None:
@@ -387,7 +393,11 @@ class Gen:
                 name, c = r.choice(self.names), self.ctx()
                 self.handlers.append((len(self.steps), name, c))
                 self.steps.append({"k": "register", "name": name, "ctx": c, "spec": self.handler_spec(history_ok, name)})
-                if r.random() < 0.85:
+                if r.random() < 0.12:
+                    # a stop request right behind the registration, committed while the handler starts up
+                    self.steps.append({"k": "unregister", "name": name, "ctx": c, "park_ms": r.choice([80, 200])})
+                    self.steps.append({"k": "settle", "ms": 400})
+                elif r.random() < 0.85:
                     self.steps.append({"k": "settle"})
             elif x < 0.62:
                 self.step_append()
@@ -569,6 +579,11 @@ def run_impl(sc, keep_dir=False, settle_ms=250):
                 out["epochs"].append({"stored": stored, "tap": [], "sync": [], "first_step": i})
                 w.call({"op": "serve_all", "wait_ms": 150, "race_ping": bool(sc.get("race_ping"))})
                 w.call({"op": "settle", "ms": settle_ms, "max_ms": 8000})
+            elif k == "unregister" and st.get("park_ms"):
+                # the request is held inside the append lock while the handler it is aimed at starts up
+                op = frame_op("append", st["name"] + ".unregister", ctx_hex(st["ctx"]))
+                op["park_ms"] = st["park_ms"]
+                obs = w.call(op)
             elif k == "unregister":
                 obs = w.call(frame_op("append", st["name"] + ".unregister", ctx_hex(st["ctx"])))
             elif k == "settle":
